@@ -7,6 +7,7 @@ package c01
 import (
 	"encoding/json"
 	"fmt"
+	"strings"
 
 	"verifsim/core"
 	"verifsim/engine"
@@ -45,7 +46,7 @@ type catEntry struct {
 var second = int64(1_000_000_000)
 
 var catalogue = []catEntry{
-	{"wrong-key", nil}, {"wrong-kvno-label", nil}, {"wrong-etype-label", nil}, {"wrong-realm-label", nil},
+	{"wrong-key", nil}, {"wrong-kvno-label", []int64{1, 256, 512, 65536, 16777216}}, {"wrong-etype-label", nil}, {"wrong-realm-label", nil},
 	{"wrong-sname-label", nil}, {"sname-empty", nil}, {"ticket-usage", nil}, {"auth-usage-7", nil},
 	{"auth-wrong-key", nil}, {"auth-etype-label", nil},
 	{"t-end", []int64{-second, -1, 0, 1, second}},
@@ -232,6 +233,10 @@ func Gen(caseID, tier string) (json.RawMessage, error) {
 		if r.Chance(1, 2) {
 			tp.Keytab.Kvnos = []int{1, 2, 3}
 		}
+	} else if r.Chance(1, 3) {
+		// key versions beyond 8 bits (the keytab format carries them in its 32-bit trailer), some of
+		// them equal modulo 256 or modulo 65536
+		tp.Keytab.Kvnos = [][]int{{1, 257}, {255, 256}, {2, 258, 514}, {300}, {3, 65539}}[r.Intn(5)]
 	}
 	net := r.Range(1, 3)
 	perm := r.Perm(len(etypes))
@@ -301,7 +306,7 @@ func Gen(caseID, tier string) (json.RawMessage, error) {
 		timeUsed := false
 		for len(p.Spec.Defects) < nd {
 			c := catalogue[r.Intn(len(catalogue))]
-			isTime := len(c.args) > 0
+			isTime := len(c.args) > 0 && strings.HasPrefix(c.kind, "t-")
 			if isTime && timeUsed {
 				continue
 			}
@@ -315,9 +320,9 @@ func Gen(caseID, tier string) (json.RawMessage, error) {
 				continue
 			}
 			d := world.Defect{Kind: c.kind}
-			if isTime {
+			if len(c.args) > 0 {
 				d.Arg = c.args[r.Intn(len(c.args))]
-				timeUsed = true
+				timeUsed = timeUsed || isTime
 			}
 			p.Spec.Defects = append(p.Spec.Defects, d)
 		}
